@@ -381,6 +381,60 @@ pub fn run_c11(tier: &str) -> Report {
             .collect();
         rep.sink.extend(vs);
     }
+    // rings of different lengths of cells spread around the globe, all ordered pairs (A drawn long, then
+    // B drawn short, and the reverse) on one fresh thread: the short ring must be bit-identical to the same
+    // ring drawn first on a fresh thread
+    let mut ring_pairs = 0u64;
+    {
+        let mut cells_g: Vec<u64> = Vec::new();
+        for k in 0..12 {
+            for lat in [7.0, -52.0] {
+                if let Ok(c) = subj::lookup(-175.0 + 30.0 * k as f64, lat, 3 + (k % 3) as i32) {
+                    cells_g.push(c);
+                }
+            }
+        }
+        cells_g.dedup();
+        let ns = [Some(1), Some(64), None, Some(7)];
+        let cold: Vec<Vec<Result<Vec<(f64, f64)>, String>>> = cells_g
+            .iter()
+            .map(|&c| ns.iter().map(|&n| std::thread::scope(|sc| sc.spawn(move || subj::boundary(c, true, n)).join().unwrap())).collect())
+            .collect();
+        let (n, vs) = std::thread::scope(|sc| {
+            sc.spawn(|| {
+                let mut n = 0u64;
+                for (i, &a) in cells_g.iter().enumerate() {
+                    for (j, &b) in cells_g.iter().enumerate() {
+                        for (ka, &na) in ns.iter().enumerate() {
+                            for (kb, &nb) in ns.iter().enumerate() {
+                                if ka == kb {
+                                    continue;
+                                }
+                                let _ = subj::boundary(a, true, na);
+                                let got = subj::boundary(b, true, nb);
+                                n += 1;
+                                let same = match (&got, &cold[j][kb]) {
+                                    (Ok(x), Ok(y)) => x.len() == y.len() && x.iter().zip(y.iter()).all(|(p, q)| p.0.to_bits() == q.0.to_bits() && p.1.to_bits() == q.1.to_bits()),
+                                    (Err(_), Err(_)) => true,
+                                    _ => false,
+                                };
+                                if !same {
+                                    let _ = i;
+                                    return (n, vec![viol("C11/ring-depends-on-previous-ring", format!("the ring of {} with segments {:?} differs from the same ring drawn first on a fresh thread when it is drawn right after the ring of {} with segments {:?}", subj::hex(b), nb, subj::hex(a), na), json!({"kind": "ring_pair", "a": subj::hex(a), "na": na, "b": subj::hex(b), "nb": nb}))]);
+                                }
+                            }
+                        }
+                    }
+                }
+                (n, vec![])
+            })
+            .join()
+            .unwrap()
+        });
+        ring_pairs += n;
+        rep.sink.extend(vs);
+    }
+    rep.set("ring_pairs_on_one_thread", json!(ring_pairs));
     rep.set("cells_drawn_right_after_being_located", json!(located));
     rep.set("evaluations", json!(cells.len() as u64 * 12 + located));
     rep.set("distinct_nontrivial", json!(cells.len() as u64));
@@ -482,6 +536,25 @@ pub fn run_c12(tier: &str) -> Report {
 }
 
 pub fn replay(prop: &str, case: &Value) -> Vec<Viol> {
+    if prop == "C11" && case["kind"] == "ring_pair" {
+        let hx = |k: &str| u64::from_str_radix(case[k].as_str().unwrap(), 16).unwrap();
+        let (a, b) = (hx("a"), hx("b"));
+        let na = case["na"].as_i64().map(|x| x as i32);
+        let nb = case["nb"].as_i64().map(|x| x as i32);
+        let cold = std::thread::spawn(move || subj::boundary(b, true, nb)).join().unwrap();
+        let case2 = case.clone();
+        return std::thread::spawn(move || {
+            let _ = subj::boundary(a, true, na);
+            let got = subj::boundary(b, true, nb);
+            if format!("{:?}", got) != format!("{:?}", cold) {
+                vec![viol("C11/ring-depends-on-previous-ring", "the ring differs from the same ring drawn first on a fresh thread".into(), case2)]
+            } else {
+                vec![]
+            }
+        })
+        .join()
+        .unwrap_or_default();
+    }
     if prop == "C11" && case["kind"] == "located" {
         let (lon, lat, r) = (case["lon"].as_f64().unwrap(), case["lat"].as_f64().unwrap(), case["res"].as_i64().unwrap() as i32);
         let case2 = case.clone();
